@@ -145,7 +145,9 @@ Fixpoint read_words (n : nat) (bs : list N) : outcome (list N) :=
             end
   end.
 
-Definition bf_deserialize (bs : list N) : outcome bloom :=
+(* everything deserialize() validates before it allocates the bit array:
+   Ok (is_empty, num_hashes, seed, num_longs) *)
+Definition bf_parse_header (bs : list N) : outcome (bool * N * N * N) :=
   (* preamble_longs, serial_version, family_id, flags *)
   if (length bs <? 4)%nat then Err else
   let pre := nth 0 bs 0 in let ver := nth 1 bs 0 in let fam := nth 2 bs 0 in let flags := nth 3 bs 0 in
@@ -163,16 +165,35 @@ Definition bf_deserialize (bs : list N) : outcome bloom :=
   let num_longs := le_val (firstn 4 (skipn 16 bs)) in
   (* num_longs <= 0 as i32 *)
   if (num_longs =? 0) || (2147483648 <=? num_longs) then Err else
+  Ok (is_empty, nh, seed, num_longs).
+
+Definition bf_deserialize (bs : list N) : outcome bloom :=
+  obind (bf_parse_header bs) (fun hd =>
+  let '(is_empty, nh, seed, num_longs) := hd in
+  (* the empty form describes an all-zero array of the announced size: vec![0u64; num_words] *)
   if is_empty then Ok (mkBloom seed nh 0 (repeat 0 (N.to_nat num_longs)))
   else
+    (* the count and every word must be present BEFORE the array is allocated
+       ("if bytes.len() < header_size + payload_size": insufficient data) *)
     match read_u64 (skipn 24 bs) with
     | None => Err
     | Some (raw, rest) =>
-        (* (guard: a word count the remaining bytes cannot hold fails in read_words anyway;
-           tested first so that the model never builds a huge unary number) *)
         if (N.of_nat (length rest) <? 8 * num_longs) then Err else
         obind (read_words (N.to_nat num_longs) rest) (fun ws =>
-        if raw =? zN GenBloom.DIRTY_BITS_VALUE then Ok (mkBloom seed nh (popcount_words ws) ws)
-        else if num_longs <? div_ceil raw 64 then Err
-        else Ok (mkBloom seed nh raw ws))
-    end.
+        (* the stored count is either the dirty marker (recount) or the population count of the
+           array; anything else is rejected *)
+        let counted := popcount_words ws in
+        if negb (raw =? zN GenBloom.DIRTY_BITS_VALUE) && negb (raw =? counted) then Err
+        else Ok (mkBloom seed nh counted ws))
+    end).
+
+(* bytes deserialize() allocates for the bit array of an accepted header (the harness flags a
+   peak above 64 * input length + 1 MiB); 0 when the header is rejected or, for the long form,
+   when the input is too short to hold the announced array *)
+Definition bf_alloc_bytes (bs : list N) : N :=
+  match bf_parse_header bs with
+  | Ok (is_empty, _, _, num_longs) =>
+      if is_empty then 8 * num_longs
+      else if N.of_nat (length bs) <? 32 + 8 * num_longs then 0 else 8 * num_longs
+  | _ => 0
+  end.
